@@ -79,8 +79,9 @@ where
 {
     let hp = plus_one(&high);
     let mut rng = Script::new(script);
-    let r = std::panic::catch_unwind(std::panic::AssertUnwindSafe(|| draw(k, low, high, hp, &mut rng)));
     let st = || vec![Subj::hex(&low), Subj::hex(&high), crate::strings::bhex(script)];
+    l.enter(config, SAMPLERS[k], st, k as u64);
+    let r = std::panic::catch_unwind(std::panic::AssertUnwindSafe(|| draw(k, low, high, hp, &mut rng)));
     match r {
         Err(_) => {
             l.check::<Z>(config, SAMPLERS[k], st, k as u64, &Expect::NoPanic, &Obs::Panic);
@@ -253,6 +254,10 @@ where
         if all_words {
             counts.clear();
             counts.resize(size, 0);
+        }
+        // one breadcrumb per (range, sampler): per-word breadcrumbs would dominate the 10^9 draws
+        if let Some(w0) = words.first() {
+            l.enter(cfg, SAMPLERS[k], || vec![Subj::hex(&low), Subj::hex(&high), crate::strings::bhex(w0)], k as u64);
         }
         let mut broke = false;
         for w in words {
